@@ -83,11 +83,14 @@ def _count_fit(v, cont):
     dt = _COUNT_INT.get(cont)
     if dt is None and cont in ('list_float', 'nd_float64', 'series_float'):
         return 'exact' if max(v) < 2 ** 53 else 'no'
-    # Python ints (list, tuple, object array) are exact at any size today; they are nevertheless held to the int64 range,
-    # so that a harmless np.asarray(counts) is not reported for magnitudes no repertoire has
+    # Python ints (list, tuple, object array) are exact at any size: entries are held to the int64 range, but the intermediates
+    # f1^2, f1(f1-1), 2 f2 may leave it - the closed form is still what comes back (seeded C16-r5m1: a conversion to an int64 array
+    # at the top of chao1 / chao2 made them wrap)
     hi = int(np.iinfo(dt or np.int64).max)
     if max(v) > hi:
         return 'no'
+    if dt is None:
+        return 'exact'
     f1, f2 = v[0], (v[1] if len(v) > 1 else 0)
     return 'exact' if max(f1 * f1, f1 * (f1 - 1), 2 * f2) <= hi else 'wraps'
 
